@@ -58,3 +58,60 @@ extern "C" void h_array(void) { hist<Array<Counted> >(); }
 extern "C" void h_map(void) { hist<Map<int, Counted> >(); }
 extern "C" void h_hashmap(void) { hist<HashMap<int, Counted> >(); }
 extern "C" void h_shared(void) { hist<Shared<Counted> >(); }
+
+// ---- concurrent part on the engine's thread model: 2-3 threads, each owning one handle to the same payload, copy and
+// drop them concurrently (the decrements/increments of the shared count are the visible operations; every interleaving
+// with at most p0 preemptions).  p1 = number of threads, p2 = per-thread program: 0 drop, 1 copy a temporary then drop,
+// 2 assign another payload's handle.  Natively the scenario is repeated many times with real threads.
+#include <pthread.h>
+static volatile int g_arrived, g_go;      // native runs only: start barrier so that the threads' operations overlap
+template<class H> struct Conc
+{
+	static H* hp; static H* otherp; static H* emptyp; static int prog;     // (objects are created in run(): no dynamic initialisers of template statics)
+	static void* body(void* arg)
+	{
+		int i = (int)(long)arg;
+		H* h = hp; H& other = *otherp;
+		if (!vp_symbolic_run()) { __sync_fetch_and_add(&g_arrived, 1); while (!g_go) {} }
+		if (prog == 1) { H t(h[i]); vp_assert(Ops<H>::id(t) == 100, "a copied handle sees the payload while it is alive"); }
+		if (prog == 2) h[i] = other; else h[i] = emptyp[i];      // (the replacement handles exist beforehand: no allocation between the barrier and the drop)
+		return 0;
+	}
+	static void run()
+	{
+		vp_sched_budget(vp_param(0));
+		int nt = vp_param(1); prog = vp_param(2);
+		int rounds = vp_symbolic_run() ? 1 : 20000;
+		H* h = hp = new H[3]; otherp = new H; H& other = *otherp; emptyp = new H[3];
+		for (int r = 0; r < rounds; r++)
+		{
+			int live0 = Counted::live, d0 = Counted::dtors;
+			{
+				H m = Ops<H>::make(100);
+				other = Ops<H>::make(200);
+				for (int i = 0; i < nt; i++) h[i] = m;
+				m = H();
+				pthread_t th[3];
+				g_arrived = 0; g_go = 0;
+				for (int i = 0; i < nt; i++) pthread_create(&th[i], 0, body, (void*)(long)i);
+				if (!vp_symbolic_run()) { while (g_arrived < nt) {} g_go = 1; }
+				for (int i = 0; i < nt; i++) pthread_join(th[i], 0);
+				vp_assert(Counted::live - live0 == Ops<H>::payload(), "after all handles of the first payload are dropped it is destroyed (exactly the other payload is alive)");
+				for (int i = 0; i < nt; i++) { if (prog == 2) vp_assert(Ops<H>::id(h[i]) == 200, "each thread's handle holds what it assigned"); h[i] = H(); }
+				other = H();
+			}
+			vp_assert(Counted::live == live0, "every payload destroyed");
+			vp_assert(Counted::dtors - d0 >= 2 * Ops<H>::payload(), "destructors ran for both payloads");
+		}
+		delete[] hp; delete otherp; delete[] emptyp;
+		vp_reach(2);
+	}
+};
+template<class H> H* Conc<H>::hp;
+template<class H> H* Conc<H>::otherp;
+template<class H> H* Conc<H>::emptyp;
+template<class H> int Conc<H>::prog;
+extern "C" void h_conc_array(void) { Conc<Array<Counted> >::run(); }
+extern "C" void h_conc_map(void) { Conc<Map<int, Counted> >::run(); }
+extern "C" void h_conc_hashmap(void) { Conc<HashMap<int, Counted> >::run(); }
+extern "C" void h_conc_shared(void) { Conc<Shared<Counted> >::run(); }
